@@ -442,6 +442,50 @@ async def login_default(a, plugins, greet_data):
     return bool(o) and o[-1][1][:1] == b"\x00"
 
 
+def verify_unit(chk, rng, n):
+    """NativePasswordAuthPlugin.verify_scramble against the model and the property, with responses whose missing or
+    extra bytes are zeros (a client that treats the scramble as a C string strips a trailing NUL): only the exact
+    20-byte scramble (or one followed by more bytes) may be accepted"""
+    from mysql_mimic.auth import NativePasswordAuthPlugin
+    pl = NativePasswordAuthPlugin()
+    lines, impl, inputs = [], [], []
+    for i in range(n):
+        pw = rng.choice(PW + ["x", "secret", "pässwörd2"])
+        stored = NativePasswordAuthPlugin.create_auth_string(pw)
+        want_zeros = rng.choice([0, 1, 1, 1, 2])
+        nonce = None
+        for _ in range(200000):
+            cand = bytes(rng.choice(ALPHA) for _ in range(20))
+            g = scramble(pw.encode("utf8"), cand)
+            if want_zeros == 0 or g.endswith(b"\0" * want_zeros) or (want_zeros == 1 and g[:1] == b"\0"):
+                nonce = cand
+                break
+        if nonce is None:
+            continue
+        good = scramble(pw.encode("utf8"), nonce)
+        variants = {"exact": good, "plus-junk": good + b"zz", "plus-nul": good + b"\0"}
+        for k in (1, 2, 3):
+            variants["strip-%d" % k] = good[:-k]
+            variants["strip-front-%d" % k] = good[k:]
+        variants["rstrip-nul"] = good.rstrip(b"\0")
+        variants["lstrip-nul"] = good.lstrip(b"\0")
+        variants["last-byte-zeroed"] = good[:-1] + b"\0"
+        variants["empty"] = b""
+        for name, resp in variants.items():
+            got = pl.verify_scramble(stored, resp, nonce)
+            should = resp[:20] == good
+            d = dict(password=pw, nonce=nonce.hex(), variant=name, response=resp.hex(), scramble=good.hex())
+            if got != should:
+                chk.fail("a response that is not this connection's scramble is accepted (or the scramble is rejected)", d, dict(accepted=got))
+            lines.append("auth verify %s %s %s" % (hexs(stored.encode()), hexs(resp), hexs(nonce)))
+            impl.append("1" if got else "0")
+            inputs.append(d)
+            chk.case(("verify", name, len(resp), good[-1] == 0))
+            chk.count("verify:" + name)
+    out = drive(lines)
+    chk.compare("NativePasswordAuthPlugin.verify_scramble = Mimic.Auth.verifyScramble", inputs, out, impl)
+
+
 def main():
     chk = Check("C02", sys.argv[1:])
     chk.rule = ("identity providers with random plugin lists/orders (native, clear-password with accept table, no-login, a 2-round "
@@ -469,6 +513,7 @@ def main():
             await run_overlap(chk, rng, lines, impl)
 
     asyncio.run(go())
+    verify_unit(chk, rng, 12 if not chk.thorough else 300)
     model = drive(sha_lines + lines)
     chk.compare("Mimic.Sha1 vs hashlib.sha1", sha_lines, model[: len(sha_lines)], sha_impl)
     chk.compare("Connection.authenticate vs Mimic.Auth.authenticate", lines, model[len(sha_lines):], impl)
